@@ -46,6 +46,19 @@ class SimRaw(io.RawIOBase):
         self._w, self._path, self._producer, self._pid = world, path, producer, pid
         self._buf = None
         self._off = 0
+        # every open file is a descriptor of the calling process: RLIMIT_NOFILE applies (EMFILE)
+        world.nopen = getattr(world, "nopen", 0) + 1
+        self._counted = True
+        if world.nopen > getattr(world, "nofile_limit", 1024) - 16:          # (16 descriptors are in use by the interpreter anyway)
+            world.nopen -= 1
+            self._counted = False
+            raise oserr(errno.EMFILE, path)
+
+    def close(self):
+        if getattr(self, "_counted", False):
+            self._counted = False
+            self._w.nopen -= 1
+        super().close()
 
     def readable(self):
         return True
